@@ -256,20 +256,6 @@ Proof.
     + intros k Hk. cbn [bmem] in Hk. apply orb_true_iff in Hk. destruct Hk as [Hk|Hk]; [|apply I2; exact Hk].
       apply beq_eq in Hk. subst k. apply len_zero_nil. rewrite I1, (Hnil I). reflexivity.
 Qed.
-Lemma recheck_none left : forall keys d d', ALLd d -> recheck left d keys = (None, d') ->
-  (forall k', len (lst d' k') = len (lst d k')) /\ forall k, bmem k keys = true -> lst d' k = [].
-Proof.
-  induction keys as [|k0 keys IH]; intros d d' HA H; cbn [recheck] in H.
-  - injection H as <-. split; [reflexivity|intros k Hk; discriminate].
-  - pose proof (on_key_pop_delta left d k0 0 HA) as Hp. cbv zeta in Hp.
-    pose proof (pop_nil_empty left d k0 HA) as Hnil. pose proof (pop_nil_same left d k0 HA) as Hsame.
-    destruct (on_key d k0 (e_pop left)) as [r d1]. cbn [fst snd] in *. destruct Hp as (P1 & P2 & _).
-    destruct r; try contradiction; try discriminate.
-    destruct (IH d1 d' P1 H) as (I1 & I2). split.
-    + intros k'. rewrite I1. apply Hsame. exact I.
-    + intros k Hk. cbn [bmem] in Hk. apply orb_true_iff in Hk. destruct Hk as [Hk|Hk]; [|apply I2; exact Hk].
-      apply beq_eq in Hk. subst k. apply len_zero_nil. rewrite I1, (Hnil I). reflexivity.
-Qed.
 Lemma list_at_set_db s dbi d1 db k : cinv s -> 0 <= dbi < 16 -> 0 <= db ->
   list_at (set_db s dbi d1) db k = if db =? dbi then lst d1 k else list_at s db k.
 Proof.
@@ -413,10 +399,44 @@ Qed.
 Lemma wmatch_sym db k u : wmatch db k u = (db =? u_db u) && beq k (u_key u).
 Proof. unfold wmatch. rewrite (Zeqb_sym (u_db u) db), (beq_sym (u_key u) k). reflexivity. Qed.
 
-(** a wake-up: the element it finds - on its key or, failing that, on another key of the call -
-    is delivered; when there is none the call is registered again and every key it names is
-    empty; when the client has gone the element goes back and the next waiter of the key is
-    notified (0715a3b) *)
+(** a wake-up: the element it finds on its key is delivered; when there is none the call is
+    registered again (its key is empty) and the head of the queue of every key it names that holds
+    an element is notified - a key on which the client is the only waiter has nobody left waiting
+    after that, the others satisfied the invariant before; when the client has gone the element
+    goes back and the next waiter of the key is notified (0715a3b) *)
+Lemma filter_none {A} (f : A -> bool) l : (forall x, In x l -> f x = false) -> filter f l = [].
+Proof.
+  induction l as [|a l IH]; intros H; cbn [filter]; [reflexivity|]. rewrite (H a (or_introl eq_refl)).
+  apply IH. intros x Hx. apply H. right. exact Hx.
+Qed.
+Lemma llen_of_lst d k : llen_of d k = length (lst d k).
+Proof. unfold llen_of, lst, lview. destruct (get_val d k) as [[]|]; reflexivity. Qed.
+(** a queue in which only one connection waits is empty once its head has been notified *)
+Lemma notify_clears_own b dbi k c :
+  (forall w, In w (reg_get (b_reg b) (dbi, k)) -> w_conn w = c) ->
+  reg_get (b_reg (notify_key_ready b dbi k)) (dbi, k) = [].
+Proof.
+  intros Hc. unfold notify_key_ready. destruct (reg_get (b_reg b) (dbi, k)) as [|w q] eqn:Eg; [exact Eg|].
+  cbn [with_wake with_reg b_reg]. rewrite reg_get_unregister. cbn [fst]. rewrite Z.eqb_refl, reg_get_put_same.
+  apply filter_none. intros x Hx. unfold not_conn.
+  rewrite (Hc x (or_intror Hx)), (Hc w (or_introl eq_refl)), Z.eqb_refl. reflexivity.
+Qed.
+Lemma renotify_clears d dbi c k : forall keys b,
+  (forall w, In w (reg_get (b_reg b) (dbi, k)) -> w_conn w = c) ->
+  bmem k keys = true -> llen_of d k <> O ->
+  reg_get (b_reg (renotify d b dbi keys)) (dbi, k) = [].
+Proof.
+  induction keys as [|k0 keys IH]; intros b Hc Hk Hl; [discriminate|]. rewrite renotify_cons.
+  cbn [bmem] in Hk. destruct (beq k k0) eqn:Ek.
+  - apply beq_eq in Ek. subst k0. destruct (llen_of d k) eqn:El; [congruence|].
+    pose proof (notify_clears_own b dbi k c Hc) as Hn.
+    destruct (reg_get (b_reg (renotify d (notify_key_ready b dbi k) dbi keys)) (dbi, k)) as [|w q] eqn:Eg; [reflexivity|].
+    exfalso. assert (Hin : In w (reg_get (b_reg (notify_key_ready b dbi k)) (dbi, k)))
+      by (apply (renotify_reg_sub d dbi (dbi, k) w keys); rewrite Eg; left; reflexivity).
+    rewrite Hn in Hin. destruct Hin.
+  - cbn [orb] in Hk. apply IH; [|exact Hk|exact Hl].
+    intros w Hw. apply Hc. destruct (llen_of d k0); [exact Hw|eapply notify_key_ready_reg_sub; exact Hw].
+Qed.
 Lemma wcount_renotified b db k db2 k2 :
   wcount db2 k2 (renotified b db k) =
   if (db2 =? db) && beq k2 k then (match reg_get (b_reg b) (db, k) with [] => 0 | _ => 1 end) else 0.
@@ -458,30 +478,31 @@ Proof.
       cbn [unblock emit with_blk b_reg]. apply STRW_log_pop, Fin.
       * intros k'. specialize (P3 k' None). rewrite !occm_none in P3. pose proof (ecount_nonneg (u_db u, k', None) [(u_db u, u_key u, b0)]). lia.
       * left. specialize (P3 (u_key u) None). rewrite !occm_none, ecount_cons, ecount_nil, elem_eqb_spec, Z.eqb_refl, beq_refl in P3. cbn [mbeq andb] in P3. lia.
-    + destruct (recheck (bl_left st) d' (bl_keys st)) as [[[k v]|] d''] eqn:Er; cbn [fst snd]; intros E.
-      * cbn [unblock emit with_blk b_wake] in E. apply app_self_nil in E. subst ex. rewrite app_nil_r.
-        destruct (recheck_delta (bl_left st) (u_db u) _ _ _ _ P1 Er) as (Q1 & Q3).
-        cbn [unblock emit with_blk b_reg]. apply STRW_log_pop, Fin.
-        -- intros k'. specialize (Q3 k' None). rewrite !occm_none in Q3. pose proof (ecount_nonneg (u_db u, k', None) [(u_db u, k, v)]).
-           rewrite <- (Hsame I k'). lia.
-        -- right. apply len_zero_nil. specialize (Q3 (u_key u) None). rewrite !occm_none in Q3.
-           pose proof (ecount_nonneg (u_db u, u_key u, None) [(u_db u, k, v)]). rewrite (Hnil I) in Q3. unfold len in *. cbn [length] in *. lia.
-      * cbn [with_reg b_wake] in E. apply app_self_nil in E. subst ex. rewrite app_nil_r.
-        destruct (recheck_none (bl_left st) _ _ _ P1 Er) as (N1 & N2).
-        cbn [with_reg b_reg]. intros db k Hd Hq.
-        rewrite (list_at_set_db s (u_db u) d'' db k CI Hr Hd).
-        destruct ((db =? u_db u) && bmem k (bl_keys st)) eqn:Em.
-        -- apply andb_true_iff in Em. destruct Em as [E1 E2]. rewrite E1, (N2 k E2). pose proof (wcount_nonneg db k W). cbn. lia.
-        -- destruct (reg_get_reregister (u_db u) (u_conn u) (bl_left st) (bl_dl st) (u_at u) (bl_keys st) (b_reg b) (db, k)) as (_ & _ & R3).
-           cbn [fst snd] in R3. destruct R3 as [[R3 R4]|R3].
-           { subst db. rewrite Z.eqb_refl, R4 in Em. discriminate. }
-           rewrite R3 in Hq. specialize (HST db k Hd Hq). rewrite wcount_cons, wmatch_sym in HST.
-           assert (Hnm : (db =? u_db u) && beq k (u_key u) = false).
-           { destruct (db =? u_db u) eqn:E1; [|reflexivity]. cbn [andb] in *. destruct (beq k (u_key u)) eqn:E2; [|reflexivity].
-             apply beq_eq in E2. subst k. congruence. }
-           rewrite Hnm in HST. rewrite list_at_lst in HST.
-           destruct (db =? u_db u) eqn:E1; [|rewrite list_at_lst; lia]. apply Z.eqb_eq in E1. subst db.
-           rewrite N1, (Hsame I k). lia.
+    + (* nothing there: registered again, the heads of the keys that hold an element notified *)
+      intros E db k Hd Hq. fold (again b u st) in Hq, E.
+      rewrite (list_at_set_db s (u_db u) d' db k CI Hr Hd).
+      assert (Hq0 : reg_get (b_reg (again b u st)) (db, k) <> [])
+        by (eapply nonempty_sub; [|exact Hq]; intros w; apply renotify_reg_sub).
+      rewrite wcount_app. pose proof (wcount_nonneg db k ex) as Hex. pose proof (wcount_nonneg db k W) as HW.
+      destruct (reg_get (b_reg b) (db, k)) as [|w0 q0] eqn:Eq0.
+      * (* nobody else waited on the key: the client is alone in the queue *)
+        destruct (reg_get_reregister (u_db u) (u_conn u) (bl_left st) (bl_dl st) (u_at u) (bl_keys st) (b_reg b) (db, k)) as (_ & _ & R3).
+        cbn [fst snd] in R3. destruct R3 as [[R3 R4]|R3].
+        2:{ cbn [again with_reg b_reg] in Hq0. rewrite R3, Eq0 in Hq0. congruence. }
+        subst db. rewrite Z.eqb_refl.
+        destruct (llen_of d' k) eqn:El.
+        -- rewrite llen_of_lst in El. unfold len. lia.
+        -- exfalso. apply Hq. apply (renotify_clears d' (u_db u) (u_conn u) k); [|exact R4|congruence].
+           intros w Hw. cbn [again with_reg b_reg] in Hw. apply in_reg_get_reregister in Hw.
+           destruct Hw as [->|Hw]; [reflexivity|]. rewrite Eq0 in Hw. destruct Hw.
+      * (* the key had a waiter: the invariant held for it, and the lists are as they were *)
+        assert (Hqb : reg_get (b_reg b) (db, k) <> []) by (rewrite Eq0; discriminate).
+        specialize (HST db k Hd Hqb). rewrite wcount_cons, wmatch_sym in HST.
+        destruct (db =? u_db u) eqn:E1; cbn [andb] in HST; [|cbv iota in HST; lia].
+        apply Z.eqb_eq in E1. subst db. rewrite list_at_lst in HST.
+        destruct (beq k (u_key u)) eqn:E2; cbv iota in HST.
+        -- apply beq_eq in E2. subst k. rewrite (Hnil I). unfold len. cbn [length]. lia.
+        -- rewrite (Hsame I k). lia.
   - (* the client has gone *)
     destruct r; try contradiction; cbn [fst snd]; intros E.
     + (* the element goes back: the lists are as before, the next waiter of the key is notified *)
@@ -526,6 +547,124 @@ Proof.
     - rewrite O2 in Hl. eapply HB; exact Hl.
     - rewrite O4 in Hl. apply zlookup_zremove_some in Hl. eapply HB; exact Hl. }
   apply IH; assumption.
+Qed.
+
+(** ================= the wake-up that finds nothing (repair of stolen-wakeup-overtakes) ================= *)
+(** a notification leaves the waiters of the other connections where they are *)
+Lemma notify_keeps_others b dbi k w0 q k' w :
+  reg_get (b_reg b) (dbi, k) = w0 :: q -> In w (reg_get (b_reg b) (dbi, k')) -> w_conn w <> w_conn w0 ->
+  In w (reg_get (b_reg (notify_key_ready b dbi k)) (dbi, k')).
+Proof.
+  intros Eg Hw Hne. destruct (fifo_serve_head b dbi k w0 q Eg) as (_ & F2 & F3). cbv zeta in F2, F3.
+  assert (Hf : not_conn (w_conn w0) w = true) by (unfold not_conn; lia).
+  destruct (rk_eqb (dbi, k') (dbi, k)) eqn:E.
+  - apply rk_eqb_eq in E. injection E as ->. rewrite F2. rewrite Eg in Hw. apply filter_In. split; [|exact Hf].
+    destruct Hw as [<-|Hw]; [congruence|exact Hw].
+  - rewrite (F3 k' E). apply filter_In. split; [exact Hw|exact Hf].
+Qed.
+(** the client keeps all its registrations, or it is woken itself *)
+Lemma renotify_self d dbi c t (K : list bytes) : forall keys b,
+  (forall rk w, In w (reg_get (b_reg b) rk) -> w_conn w = c -> w_at w = t) ->
+  (forall k, bmem k K = true -> exists w, In w (reg_get (b_reg b) (dbi, k)) /\ w_conn w = c /\ w_at w = t) ->
+  (forall k, bmem k K = true -> exists w, In w (reg_get (b_reg (renotify d b dbi keys)) (dbi, k)) /\ w_conn w = c /\ w_at w = t)
+  \/ exists x, In x (renotified_l d b dbi keys) /\ u_conn x = c /\ u_at x = t /\ bmem (u_key x) keys = true.
+Proof.
+  induction keys as [|k0 keys IH]; intros b Hst HP; [left; exact HP|]. rewrite renotify_cons. cbn [renotified_l].
+  assert (Weak : forall l, (exists x, In x l /\ u_conn x = c /\ u_at x = t /\ bmem (u_key x) keys = true) ->
+            forall l0, exists x, In x (l0 ++ l) /\ u_conn x = c /\ u_at x = t /\ bmem (u_key x) (k0 :: keys) = true).
+  { intros l (x & X1 & X2 & X3 & X4) l0. exists x. split; [apply in_or_app; right; exact X1|]. split; [exact X2|]. split; [exact X3|].
+    cbn [bmem]. rewrite X4. apply orb_true_r. }
+  destruct (llen_of d k0).
+  { destruct (IH b Hst HP) as [G|G]; [left; exact G|right; exact (Weak _ G [])]. }
+  destruct (reg_get (b_reg b) (dbi, k0)) as [|w0 q] eqn:Eg.
+  { assert (En : notify_key_ready b dbi k0 = b) by (unfold notify_key_ready; rewrite Eg; reflexivity). rewrite En.
+    destruct (IH b Hst HP) as [G|G]; [left; exact G|right; exact (Weak _ G _)]. }
+  destruct (Z.eq_dec (w_conn w0) c) as [Ec|Ec].
+  - (* the client is the head: it is woken *)
+    right. exists {| u_conn := w_conn w0; u_db := dbi; u_key := k0; u_left := w_left w0; u_at := w_at w0 |}.
+    split; [apply in_or_app; left; unfold renotified; rewrite Eg; left; reflexivity|]. cbn [u_conn u_at u_key].
+    split; [exact Ec|]. split; [apply (Hst (dbi, k0) w0); [rewrite Eg; left; reflexivity|exact Ec]|].
+    cbn [bmem]. rewrite beq_refl. reflexivity.
+  - (* somebody who blocked earlier is: the client stays where it is *)
+    destruct (IH (notify_key_ready b dbi k0)) as [G|G]; [| |left; exact G|right; exact (Weak _ G _)].
+    + intros rk w Hw. apply (Hst rk). eapply notify_key_ready_reg_sub; exact Hw.
+    + intros k Hk. destruct (HP k Hk) as (w & W1 & W2 & W3). exists w. split; [|split; assumption].
+      eapply notify_keeps_others; [exact Eg|exact W1|congruence].
+Qed.
+(** every key of the call that holds an element gets a wake-up, or has nobody in its queue *)
+Lemma renotify_served d dbi k : forall keys b, bmem k keys = true -> llen_of d k <> O ->
+  reg_get (b_reg (renotify d b dbi keys)) (dbi, k) = [] \/
+  exists x, In x (renotified_l d b dbi keys) /\ u_db x = dbi /\ u_key x = k.
+Proof.
+  induction keys as [|k0 keys IH]; intros b Hk Hl; [discriminate|]. rewrite renotify_cons. cbn [renotified_l].
+  cbn [bmem] in Hk. destruct (beq k k0) eqn:Ek.
+  - apply beq_eq in Ek. subst k0. destruct (llen_of d k); [congruence|].
+    destruct (reg_get (b_reg b) (dbi, k)) as [|w0 q] eqn:Eg.
+    + left. destruct (reg_get (b_reg (renotify d (notify_key_ready b dbi k) dbi keys)) (dbi, k)) as [|w q] eqn:E2; [reflexivity|].
+      exfalso. assert (Hin : In w (reg_get (b_reg b) (dbi, k))).
+      { eapply notify_key_ready_reg_sub. apply (renotify_reg_sub d dbi (dbi, k) w keys). rewrite E2. left. reflexivity. }
+      rewrite Eg in Hin. destruct Hin.
+    + right. exists {| u_conn := w_conn w0; u_db := dbi; u_key := k; u_left := w_left w0; u_at := w_at w0 |}.
+      split; [apply in_or_app; left; unfold renotified; rewrite Eg; left; reflexivity|split; reflexivity].
+  - cbn [orb] in Hk. destruct (llen_of d k0); [apply IH; assumption|].
+    destruct (IH (notify_key_ready b dbi k0) Hk Hl) as [G|(x & X1 & X2)]; [left; exact G|].
+    right. exists x. split; [apply in_or_app; right; exact X1|exact X2].
+Qed.
+
+(** the branch as a whole.  [Hfree]: the connection of a wake-up has no registration (wakes_agree,
+    part of the invariant of every reachable state) *)
+Theorem empty_wakeup_pops_nothing now s b u st :
+  zlookup (u_conn u) (b_blk b) = Some st ->
+  (forall rk w, In w (reg_get (b_reg b) rk) -> w_conn w <> u_conn u) ->
+  let d := fst (purge_key now (get_db s (u_db u), []) (u_key u)) in
+  (match fst (on_key d (u_key u) (e_pop (u_left u))) with FBulk _ => False | _ => True end) ->
+  let d' := snd (on_key d (u_key u) (e_pop (u_left u))) in
+  let s' := fst (wake_client now s b u) in
+  let b' := snd (wake_client now s b u) in
+  s' = set_db s (u_db u) d' /\ b_out b' = b_out b /\ b_blk b' = b_blk b /\
+  (forall rk w, In w (reg_get (b_reg b') rk) ->
+     In w (reg_get (b_reg b) rk) \/ (w_conn w = u_conn u /\ w_at w = u_at u /\ fst rk = u_db u /\ bmem (snd rk) (bl_keys st) = true)) /\
+  exists ex, b_wake b' = b_wake b ++ ex /\
+    ((forall k, bmem k (bl_keys st) = true ->
+        exists w, In w (reg_get (b_reg b') (u_db u, k)) /\ w_conn w = u_conn u /\ w_at w = u_at u)
+     \/ exists x, In x ex /\ u_conn x = u_conn u /\ u_at x = u_at u /\ bmem (u_key x) (bl_keys st) = true) /\
+    (forall k, bmem k (bl_keys st) = true -> llen_of d' k <> O ->
+       reg_get (b_reg b') (u_db u, k) = [] \/ exists x, In x ex /\ u_db x = u_db u /\ u_key x = k).
+Proof.
+  intros Hst Hfree. cbv zeta. unfold wake_client.
+  destruct (on_key (fst (purge_key now (get_db s (u_db u), []) (u_key u))) (u_key u) (e_pop (u_left u))) as [r d'].
+  rewrite Hst. cbn [fst snd]. intros Hr.
+  assert (Main : let b' := renotify d' (again b u st) (u_db u) (bl_keys st) in
+    b_out b' = b_out b /\ b_blk b' = b_blk b /\
+    (forall rk w, In w (reg_get (b_reg b') rk) ->
+       In w (reg_get (b_reg b) rk) \/ (w_conn w = u_conn u /\ w_at w = u_at u /\ fst rk = u_db u /\ bmem (snd rk) (bl_keys st) = true)) /\
+    exists ex, b_wake b' = b_wake b ++ ex /\
+      ((forall k, bmem k (bl_keys st) = true ->
+          exists w, In w (reg_get (b_reg b') (u_db u, k)) /\ w_conn w = u_conn u /\ w_at w = u_at u)
+       \/ exists x, In x ex /\ u_conn x = u_conn u /\ u_at x = u_at u /\ bmem (u_key x) (bl_keys st) = true) /\
+      (forall k, bmem k (bl_keys st) = true -> llen_of d' k <> O ->
+         reg_get (b_reg b') (u_db u, k) = [] \/ exists x, In x ex /\ u_db x = u_db u /\ u_key x = k)).
+  { cbv zeta.
+    split; [exact (proj1 (proj2 (renotify_fields _ _ _ _)))|]. split; [exact (proj1 (renotify_fields _ _ _ _))|].
+    assert (Hin0 : forall rk w, In w (reg_get (b_reg (again b u st)) rk) ->
+              In w (reg_get (b_reg b) rk) \/ (w = mkw (u_conn u) (bl_dl st) (bl_left st) (u_at u) /\ fst rk = u_db u /\ bmem (snd rk) (bl_keys st) = true)).
+    { intros rk w Hw. cbn [again with_reg b_reg] in Hw.
+      destruct (reg_get_reregister (u_db u) (u_conn u) (bl_left st) (bl_dl st) (u_at u) (bl_keys st) (b_reg b) rk) as (_ & _ & [R3|R3]).
+      - apply in_reg_get_reregister in Hw. destruct Hw as [Hw|Hw]; [right; split; [exact Hw|exact R3]|left; exact Hw].
+      - rewrite R3 in Hw. left. exact Hw. }
+    split.
+    { intros rk w Hw. apply renotify_reg_sub in Hw. destruct (Hin0 rk w Hw) as [G|(-> & G2 & G3)]; [left; exact G|].
+      right. cbn [mkw w_conn w_at]. repeat split; assumption. }
+    exists (renotified_l d' (again b u st) (u_db u) (bl_keys st)).
+    split; [apply (renotify_wake d' (u_db u) (bl_keys st) (again b u st))|]. split.
+    - apply renotify_self.
+      + intros rk w Hw Hc. destruct (Hin0 rk w Hw) as [G|(-> & _)]; [exfalso; exact (Hfree rk w G Hc)|reflexivity].
+      + intros k Hk. exists (mkw (u_conn u) (bl_dl st) (bl_left st) (u_at u)). split; [|split; reflexivity].
+        cbn [again with_reg b_reg].
+        apply (reg_get_reregister (u_db u) (u_conn u) (bl_left st) (bl_dl st) (u_at u) (bl_keys st) (b_reg b) (u_db u, k)).
+        split; [reflexivity|exact Hk].
+    - intros k Hk Hl. apply renotify_served; assumption. }
+  cbv zeta in Main. destruct r; try contradiction; cbn [fst snd]; (split; [reflexivity|exact Main]).
 Qed.
 
 (** ================= the invariant over all list-command histories ================= *)
